@@ -145,6 +145,23 @@ def _classify_path(ctx, func, expr, _depth=0):
     return "unknown", None
 
 
+def _names_tempfile(ctx, f, src, ctor_call):
+    """``src`` denotes the file created by the tempfile constructor call: a name
+    unpacked from it (``fd, tmp = mkstemp(...)``) or ``<with-target>.name``"""
+    if not (isinstance(ctor_call, ast.Call) and dotted(ctor_call.func) in TEMPFILE_CTORS):
+        return False
+    root = src
+    if isinstance(src, ast.Attribute) and src.attr == "name":
+        root = src.value
+    if not isinstance(root, ast.Name):
+        return False
+    for v in ctx.r.local_assignments(f).get(root.id, []):
+        base = v.value if isinstance(v, ast.Subscript) else v
+        if base is ctor_call:
+            return True
+    return False
+
+
 def rule_atomic(ctx):
     r = RuleResult("C15-ATOMIC", "durable cache writes publish atomically", 1)
     for f in _scope(ctx):
@@ -210,7 +227,7 @@ def rule_atomic(ctx):
                     src, dst = c2.func.value, c2.args[0]
                 if src is None:
                     continue
-                if C.unparse(src) != C.unparse(pexpr):
+                if C.unparse(src) != C.unparse(pexpr) and not _names_tempfile(ctx, f, src, pexpr):
                     continue
                 if _classify_path(ctx, f, dst)[0] == "final":
                     reps.append(n.id)
